@@ -76,9 +76,13 @@ def seg_lines(seg, d):
     return lines, rows
 
 
+VARIANT_NAMES = {1: "extra-blanks-between-code-words", 2: "extra-blanks-between-code-words", 3: "across-the-first-hour", 4: "lang-option", 5: "crlf-line-ends"}
+
+
 def build(segs, d, sep, gap, spacing=0):
+    """spacing (variant): 1 / 2 extra blanks, 3 the program starts shortly before 01:00:00, 4 read with lang=, 5 CR LF line ends"""
     out = ["Scenarist_SCC V1.0", ""]
-    t = 30
+    t = 30 if spacing != 3 else 3599 * 30 + 20
     rows = []
     nl = 0
     for seg in segs:
@@ -91,7 +95,7 @@ def build(segs, d, sep, gap, spacing=0):
             out.append("")
             t += len(w) + gap
             nl += 1
-    return "\n".join(out), rows
+    return ("\r\n" if spacing == 5 else "\n").join(out), rows
 
 
 # documents the reader refuses (a 40-column row; a mangled timecode in the middle): used as earlier reads of a reused reader
@@ -113,8 +117,8 @@ def evaluate(segs, d, sep, gap, chain, disturb=False, spacing=0):
             except Exception:  # noqa
                 pass
     try:
-        cs = shared.obj(SCCReader).read(doc)
-        caps = list(cs.get_captions("en-US"))
+        cs = shared.obj(SCCReader).read(doc, lang="de-DE") if spacing == 4 else shared.obj(SCCReader).read(doc)
+        caps = list(cs.get_captions("de-DE" if spacing == 4 else "en-US"))
     except Exception as e:  # noqa
         if not chain and type(e).__name__ == "CaptionReadTimingError":
             # a pop-on caption wiped by an immediate mode switch is displayed for less than 0.05 s: documented rejection (C06)
@@ -252,10 +256,10 @@ def run_shard(d):
             states.add(h8((klass, [s[0:2] for s in segs], i)))
         acc.case((segs, dd, sep, gap, spacing), nrows > 0, out, {"segments": segs, "doubled": dd == 2, "separator": sep, "gap_frames": gap, "blank_spacing_variant": spacing})
         for kind, det in v:
-            acc.violation(f"C16/{klass}/{kind}" + ("/extra-blanks-between-code-words" if spacing else ""), {"segs": segs, "d": dd, "sep": sep, "gap": gap, "chain": chain, "klass": klass, "spacing": spacing}, det)
+            acc.violation(f"C16/{klass}/{kind}" + ("/" + VARIANT_NAMES[spacing] if spacing else ""), {"segs": segs, "d": dd, "sep": sep, "gap": gap, "chain": chain, "klass": klass, "spacing": spacing}, det)
         if spacing == 0 and dd == 1 and gap == GAPS[0] and sep == ":":
-            run(segs, dd, sep, gap, chain, klass, 1)
-            run(segs, dd, sep, gap, chain, klass, 2)
+            for variant in (1, 2, 3, 4, 5):
+                run(segs, dd, sep, gap, chain, klass, variant)
 
     if d["k"] == "reuse":
         shared.run(acc, reuse_items(), reuse_eval, sample=lambda it: {"reuse_run_step": list(it)})
@@ -343,4 +347,4 @@ def replay(case):
             segs.append(("pop", s[1]))
     sp = case.get("spacing", 0)
     v, _ = evaluate(segs, case["d"], case["sep"], case["gap"], case["chain"], False, sp)
-    return [{"sig": f"C16/{case['klass']}/{k}" + ("/extra-blanks-between-code-words" if sp else ""), "detail": det} for k, det in v]
+    return [{"sig": f"C16/{case['klass']}/{k}" + ("/" + VARIANT_NAMES[sp] if sp else ""), "detail": det} for k, det in v]
